@@ -13,25 +13,23 @@ def bodyWithAnn (anns : List (String × J)) : J :=
 
 def cfgDefault0 : Cfg :=
   ⟨.leaf (.annotations "kopf.zalando.org" "last-handled-configuration" true []),
-   [.annotations "kopf.zalando.org", .status ["status", "kopf", "progress"]], hashes0⟩
+   [.annotations "kopf.zalando.org", .status ["status", "kopf", "progress"] ["status", "kopf", "dummy"]], hashes0⟩
 
 def diffLen0 (x y : Except Err J) : Option Nat :=
   match x, y with
   | .ok e, .ok e' => some (diff e e' []).length
   | _, _ => none
 
-/-- C04-N1: a Kopf operator with prefix `kopf.dev` gets no marker (`_store_marker` skips prefixes
-    starting with `kopf.`), `kopf.dev` is not recognised by itself, and its touch-dummy is an essential
-    change for the default-configured operator; the same write under `my-op.example.com` (marker
-    written along) is not. -/
-theorem kopf_prefix_unmarked_witness :
-    keys (storeMarker "kopf.dev" [("note", .str "u")] [("kopf.dev/touch-dummy", .str "2020")]) = ["kopf.dev/touch-dummy"]
+/-- the former witness of finding C04-N1 (fixed in kopf ef55390), now a positive instance: a Kopf
+    operator with prefix `kopf.dev` does get the `kopf-managed` marker, and its touch is no essential
+    change for the default-configured operator (an instance of `kopf_storage_write_invisible`). -/
+theorem kopf_dev_touch_invisible :
+    keys (storeMarker "kopf.dev" [("note", .str "u")] [("kopf.dev/touch-dummy", .str "2020")]) =
+      ["kopf.dev/touch-dummy", "kopf.dev/kopf-managed"]
     ∧ knownish "kopf.dev".toList = false
     ∧ diffLen0 (essence cfgDefault0 [] (bodyWithAnn [("note", .str "u")]))
-        (essence cfgDefault0 [] (bodyWithAnn [("note", .str "u"), ("kopf.dev/touch-dummy", .str "2020")])) = some 1
-    ∧ diffLen0 (essence cfgDefault0 [] (bodyWithAnn [("note", .str "u")]))
-        (essence cfgDefault0 [] (bodyWithAnn ([("note", .str "u")] ++
-          storeMarker "my-op.example.com" [("note", .str "u")] [("my-op.example.com/touch-dummy", .str "2020")]))) = some 0 := by
+        (essence cfgDefault0 [] (bodyWithAnn (mergeKvs [("note", .str "u")]
+          (storeMarker "kopf.dev" [("note", .str "u")] [("kopf.dev/touch-dummy", .str "2020")])))) = some 0 := by
   decide
 
 /-- C04-F11, the marker matters the other way round too: the *first* write under a custom, not yet
@@ -60,15 +58,15 @@ theorem adoption_loses_last_handled_witness :
         (fun ks => fetchRaw ks anns)).isSome = false := by
   decide
 
-/-- C04-N3: `StatusProgressStorage.clear` removes the progress `field` only; a touch field outside
-    `status` (here `kopf.dummy`, progress under `kopf.progress`) stays in the essence: the framework's
-    own touch is an essential change. -/
-theorem touch_field_witness :
+/-- the former witness of finding C04-N3 (fixed in kopf dbb523b), now a positive instance:
+    `StatusProgressStorage.clear` removes the touch field as well; a touch field outside `status`
+    (here `kopf.dummy`, progress under `kopf.progress`) is no essential change. -/
+theorem touch_field_cleaned :
     let cfg : Cfg := ⟨.leaf (.annotations "kopf.zalando.org" "last-handled-configuration" true []),
-      [.status ["kopf", "progress"]], hashes0⟩
+      [.status ["kopf", "progress"] ["kopf", "dummy"]], hashes0⟩
     diffLen0 (essence cfg [] (.obj [("metadata", .obj [("name", .str "x")]), ("spec", .obj [("a", .num 1)])]))
       (essence cfg [] (.obj [("metadata", .obj [("name", .str "x")]), ("spec", .obj [("a", .num 1)]),
-        ("kopf", .obj [("dummy", .str "2020")])])) = some 1 := by
+        ("kopf", .obj [("dummy", .str "2020")])])) = some 0 := by
   decide
 
 /-! ## the excluded points, executed (witnesses for the known findings F8, F9) -/
@@ -80,22 +78,38 @@ def diffLen (x y : Except Err J) : Option Nat :=
 
 def cfgStatusProgress : Cfg :=
   ⟨.leaf (.annotations "kopf.zalando.org" "last-handled-configuration" true []),
-   [.status ["status", "kopf", "progress"]], hashes0⟩
+   [.status ["status", "kopf", "progress"] ["status", "kopf", "dummy"]], hashes0⟩
 
-/-- F8: with `StatusProgressStorage` and a handler on field `status` (outside `ExtraAvoids "status"`),
-    kopf's own touch (`status.kopf.dummy`) is an essential change. -/
-theorem extra_status_witness :
+/-- the former primary witness of F8, closed by kopf dbb523b: with `StatusProgressStorage` and a
+    handler on field `status`, kopf's own touch (`status.kopf.dummy`) is cleaned again. -/
+theorem status_handler_touch_invisible :
     diffLen
       (essence cfgStatusProgress [["status"]]
         (.obj [("metadata", .obj [("name", .str "x")]), ("spec", .obj [("a", .num 1)]), ("status", .obj [("x", .num 1)])]))
       (essence cfgStatusProgress [["status"]]
         (.obj [("metadata", .obj [("name", .str "x")]), ("spec", .obj [("a", .num 1)]),
                ("status", .obj [("x", .num 1), ("kopf", .obj [("dummy", .str "2020")])])]))
+      = some 0 := by decide
+
+def cfgCustomStatus : Cfg :=
+  ⟨.leaf (.annotations "my-op.example.com" "last-handled-configuration" true []),
+   [.status ["status", "kopf", "progress"] ["status", "kopf", "dummy"]], hashes0⟩
+
+/-- F8 (still open): a handler field that covers a location the framework itself writes is restored
+    into the essence AFTER the cleaning. With a handler on `metadata.annotations`
+    (outside `ExtraAnnOK`), a custom-prefix diff-base storage and a status progress storage, the
+    `kopf-managed` marker written with the first store is an essential change (the last-handled key
+    itself is removed by its exact name). -/
+theorem extra_annotations_witness :
+    diffLen
+      (essence cfgCustomStatus [["metadata", "annotations"]] (bodyWithAnn [("note", .str "u")]))
+      (essence cfgCustomStatus [["metadata", "annotations"]] (bodyWithAnn (mergeKvs [("note", .str "u")]
+        (storeMarker "my-op.example.com" [("note", .str "u")] [("my-op.example.com/last-handled-configuration", .str "{}")]))))
       = some 1 := by decide
 
 def cfgMultiDev : Cfg :=
   ⟨.multi [.annotations "kopf.dev" "last-handled-configuration" true []],
-   [.annotations "kopf.zalando.org", .status ["status", "kopf", "progress"]], hashes0⟩
+   [.annotations "kopf.zalando.org", .status ["status", "kopf", "progress"] ["status", "kopf", "dummy"]], hashes0⟩
 
 def rsBody (anns : List (String × J)) : J :=
   .obj [("kind", .str "ReplicaSet"),
